@@ -206,3 +206,27 @@ package stdlib
 //@   let t (vty (val_at args 0))
 //@   ensures[C11] ok: (= (= err nil.Any) (or (is_tuple_ty t) (is_list_ty t) (is_map_ty t) (is_set_ty t) (is_dyn_ty t)))
 //@   ensures[C11] number: (=> (= err nil.Any) (is_number_ty ret))
+//
+// int / ceil / floor: truncation toward zero, then one step where math/big reports the truncation as
+// being on the wrong side; infinities pass through. (ceil and floor store the integer at the argument's
+// precision: one rounding rnd(p, .), which is exact for every integer that fits the precision.)
+//@ func stdlib.IntFunc.Impl
+//@   tags C11 C14
+//@   spec_args stdlib.IntFunc
+//@   let a (val_at args 0)
+//@   ensures[C11] ok: (and (= result.1 nil.Any) (wf_deep result.0) (is_number_ty (vty result.0)) (not (is_null result.0)))
+//@   ensures[C14] value: (and (kn result.0) (=> (= (num_i a) 0) (and (= (num_i result.0) 0) (= (num_r result.0) (to_real (r_trunc (num_r a)))))))
+//
+//@ func stdlib.CeilFunc.Impl
+//@   tags C11 C14
+//@   spec_args stdlib.CeilFunc
+//@   let a (val_at args 0)
+//@   ensures[C11] ok: (and (= err nil.Any) (wf_deep ret) (is_number_ty (vty ret)) (not (is_null ret)))
+//@   ensures[C14] value: (and (kn ret) (= (num_i ret) (num_i a)) (=> (= (num_i a) 0) (= (num_r ret) (rnd (num_p a) (to_real (r_ceil (num_r a)))))))
+//
+//@ func stdlib.FloorFunc.Impl
+//@   tags C11 C14
+//@   spec_args stdlib.FloorFunc
+//@   let a (val_at args 0)
+//@   ensures[C11] ok: (and (= err nil.Any) (wf_deep ret) (is_number_ty (vty ret)) (not (is_null ret)))
+//@   ensures[C14] value: (and (kn ret) (= (num_i ret) (num_i a)) (=> (= (num_i a) 0) (= (num_r ret) (rnd (num_p a) (to_real (to_int (num_r a)))))))
